@@ -131,6 +131,21 @@ CHECKS["C20"] = {
     "technique": "static analysis: None-default data flow, effect analysis with the copy flag, closed-form and literal-table comparison, purity rule",
 }
 
+CHECKS["C19"] = {
+    "level": "proof",
+    "text": ("Proof over the reals, re-derived from the parsed source on every run: both directions of all four scaling functions "
+             "are extracted as piecewise Moebius/log/exp closed forms with exact rational coefficients; the two compositions "
+             "reduce to the identity piece by piece (pieces matched through exact break-point images, exp/log cancellation in "
+             "rational normal form), every piece is strictly increasing (structural argument: determinant sign, pole outside, "
+             "monotone outer maps, positive factors), neighbouring pieces agree exactly at the break-points, the mel and Bark "
+             "maps match the published formulas, OctaveScaling validates low_hz. A refutation always carries an exact witness. "
+             "This is the right level because the property is a statement about closed forms; what it does not cover is "
+             "floating-point round-off of log/exp."),
+    "design_ref": "DESIGN.md §3 C19",
+    "note": NOTE_COMMON + "Assumptions: real arithmetic; LinearScaling.slope_hz > 0 (not validated by the constructor, not demanded by the property).",
+    "technique": "static analysis: exact symbolic normal forms (Moebius chains, exp/log cancellation, rational break-points) of the extracted closed forms",
+}
+
 _PENDING = "check not built yet in this session (static-analysis clauses planned in DESIGN.md §3)"
 NOT_APPLICABLE = {("C%02d" % i): _PENDING for i in range(1, 21) if ("C%02d" % i) not in CHECKS}
 
